@@ -35,6 +35,10 @@ CRYSTALS = {
 
 
 def units(tier):
+    if tier == "thorough":
+        from checks.c08 import _sb_crystals
+        for k, v in _sb_crystals().items():
+            CRYSTALS.setdefault(k, (v[0], v[1], v[2]))
     return [("dataset", 0)] + [("born", c) for c in CRYSTALS]
 
 
